@@ -315,3 +315,118 @@ class Generate:
                 and no_empty_values(project_report.bad_licenses)
                 and project_report.deprecated_licenses == deprecated_spec(project, _done))),
     }
+
+
+# ---- FileReport.generate (C01, C06, C18) -----------------------------------------------------------------------
+infos_of = ufun("infos_of", ["Project", "Path"], "list[ReuseInfo]")
+license_keys = ufun("license_keys", ["Expr"], "set[str]")
+relative_of = ufun("relative_of", ["Path", "Path"], "Path")
+sha1_of = ufun("sha1_of", ["Path"], "str")
+
+
+@contract("reuse.project.Project.reuse_info_of", serves=["C01", "C04"], assumed=True,
+          why="the precedence logic is verified against the statement in C04; here its result is the ghost list infos_of(project, path)")
+class ReuseInfoOfAssumed:
+    types = {"self": "Project", "path": "Path", "return": "list[ReuseInfo]"}
+
+    def post(self, path, result):
+        return result == infos_of(self, path)
+
+
+@contract("reuse.project.Project.relative_from_root", serves=["C01"], assumed=True,
+          why="lexical relativisation (pathlib / os.path.relpath): a function of (root, path)")
+class RelativeFromRoot:
+    types = {"self": "Project", "path": "Path", "return": "Path"}
+
+    def post(self, path, result):
+        return result == relative_of(self.root, path)
+
+
+@contract("reuse._util._checksum", serves=["C18"], assumed=True,
+          why="SHA-1 of the file's bytes; the chunk loop is C18's obligation")
+class ChecksumAssumed:
+    types = {"path": "Path", "return": "str"}
+
+    def post(path, result):
+        return result == sha1_of(path)
+
+
+@spec(opaque=True)
+def keys_upto(infos: "list[ReuseInfo]", n: int, k: str) -> bool:
+    """k is a licence/exception identifier of some expression of one of the first n infos"""
+    return exists(lambda j, e: 0 <= j and j < n and j < len(infos) and e in infos[j].spdx_expressions and k in license_keys(e), "int", "Expr")
+
+
+@lemma(types={"infos": "list[ReuseInfo]", "n": "int", "k": "str"}, serves=["C01", "C06"], name="keys-upto-step")
+def keys_step(infos, n, k):
+    return implies(reveal(keys_upto(infos, n, k)) and reveal(keys_upto(infos, n + 1, k)) and 0 <= n and n < len(infos),
+                   keys_upto(infos, n + 1, k)
+                   == (keys_upto(infos, n, k) or exists(lambda e: e in infos[n].spdx_expressions and k in license_keys(e), "Expr")))
+
+
+@lemma(types={"infos": "list[ReuseInfo]", "k": "str"}, serves=["C01", "C06"], name="keys-upto-base")
+def keys_base(infos, k):
+    return implies(reveal(keys_upto(infos, 0, k)), not keys_upto(infos, 0, k))
+
+
+@spec
+def is_bad(project, k):
+    # C06: bad iff neither the identifier nor its '+'-less form is on the licence/exception map
+    return k not in project.license_map and strip_plus(k) not in project.license_map
+
+
+@spec
+def is_missing(project, k):
+    # C06: missing iff no LICENSES/ file provides it, with or without the trailing '+'
+    return k not in project.licenses and strip_plus(k) not in project.licenses
+
+
+@spec
+def classified(report, project, k):
+    return ((k in report.bad_licenses) == (k in report.licenses_in_file and is_bad(project, k))
+            and (k in report.missing_licenses) == (k in report.licenses_in_file and is_missing(project, k)))
+
+
+@spec
+def lines_nonempty(infos):
+    return forall(lambda j, line: implies(0 <= j and j < len(infos) and line in infos[j].copyright_lines, line != ""), "int", "str")
+
+
+@contract("reuse.report.FileReport.generate", serves=["C01", "C06", "C13", "C18"])
+class FileReportGenerate:
+    types = {"project": "Project", "path": "Path", "do_checksum": "bool", "add_license_concluded": "bool", "return": "FileReport"}
+    raises_iff = {OSError: lambda path: not path.is_file()}
+    # k0 is an arbitrary identifier: proving the pointwise statements for it proves them for every identifier;
+    # at call sites the postcondition is universally quantified over k0.
+    ghost = {"k0": "str"}
+
+    def pre(project, path):
+        # copyright lines are non-empty strings: proved for the extractor (C02: stripped regex captures of >= 1 char)
+        return lines_nonempty(infos_of(project, path))
+
+    def post(project, path, do_checksum, add_license_concluded, result, k0):
+        infos = infos_of(project, path)
+        return (result.path == path
+                and (k0 in result.licenses_in_file) == keys_upto(infos, len(infos), k0)
+                and classified(result, project, k0)
+                and (result.copyright != "") == exists(lambda j, line: 0 <= j and j < len(infos) and line in infos[j].copyright_lines, "int", "str")
+                and result.reuse_infos == infos
+                and implies(do_checksum, result.chk_sum == sha1_of(path))
+                and implies(not add_license_concluded, result.license_concluded == "NOASSERTION"))
+
+    loops = {
+        0: LoopSpec(inv=lambda report, reuse_infos, project, _i, k0: (
+            use(keys_step, reuse_infos, _i, k0) and use(keys_base, reuse_infos, k0)
+            and (k0 in report.licenses_in_file) == keys_upto(reuse_infos, _i, k0)
+            and classified(report, project, k0))),
+        1: LoopSpec(inv=lambda report, reuse_infos, project, _i0, _done, k0: (
+            (k0 in report.licenses_in_file)
+            == (keys_upto(reuse_infos, _i0, k0) or exists(lambda e: e in _done and k0 in license_keys(e), "Expr"))
+            and classified(report, project, k0))),
+        2: LoopSpec(inv=lambda report, reuse_infos, project, expression, _i0, _done1, _i, _it, k0: (
+            (k0 in report.licenses_in_file)
+            == (keys_upto(reuse_infos, _i0, k0) or exists(lambda e: e in _done1 and k0 in license_keys(e), "Expr")
+                or exists(lambda m: 0 <= m and m < _i and _it[m] == k0, "int"))
+            and classified(report, project, k0)),
+            types={"identifiers": "set[str]", "plus_identifier": "str"}),
+    }
